@@ -40,6 +40,8 @@ impl Hist for C16 {
             BOp::Style(2),
             BOp::Style(4),
             BOp::StyleRoundTrip,
+            BOp::StyleSave,
+            BOp::StyleRestore,
             BOp::FinishMsg("f\t"),
             BOp::Msg("\t\t"),
         ]
@@ -73,8 +75,20 @@ impl Hist for C16 {
         }
         let shown: Vec<String> = hist.iter().map(|o| format!("{:?}", o)).collect();
         let mut frame: Option<Vec<String>> = None;
+        // the copy of the style kept by StyleSave, with the template it had
+        let mut saved: Option<(indicatif::ProgressStyle, usize)> = None;
         for (i, op) in hist.iter().enumerate() {
             clock::advance_ms(1000);
+            match op {
+                BOp::StyleSave => saved = Some((pb.style(), rf.tpl)),
+                BOp::StyleRestore => {
+                    if let Some((s, t)) = saved.clone() {
+                        pb.set_style(s);
+                        rf.tpl = t;
+                    }
+                }
+                _ => {}
+            }
             if let Err(p) = catch(|| apply(&pb, op)) {
                 let _ = catch(move || drop(pb));
                 return Verdict::Bad(Violation { class: format!("panic: {}", panic_class(&p)), config: self.config(), history: shown[..=i].to_vec(), detail: p });
@@ -140,9 +154,9 @@ pub fn run(tier: Tier, shard: Shard, stats: &mut Stats) {
 pub fn meta(tier: Tier) -> Meta {
     Meta {
         level: "model_checking",
-        rule: "stateless DFS over all orders of set_tab_width(0|2|8) / set_style (literal tab, custom key writing a tab, prefix|msg, literal tabs around a brace that stands for itself) / style round trip through pb.style().template(..) / set_message / set_prefix / finish_with_message / tick to the stated depth, from three initial configurations (with and without with_tab_width) plus 18 configurations built in the other builder orders (with_tab_width before with_style, with_message/with_prefix before or after with_tab_width); after every operation: no TAB byte reached the terminal, the document equals the reference expansion with the current width, message()/prefix() return the expanded text; non-trivial = an expanded tab or a separator is on screen".into(),
+        rule: "stateless DFS over all orders of set_tab_width(0|2|8) / set_style (literal tab, custom key writing a tab, prefix|msg, literal tabs around a brace that stands for itself) / style round trip through pb.style().template(..) / a copy of the bar's style taken earlier and installed again later / set_message / set_prefix / finish_with_message / tick to the stated depth, from three initial configurations (with and without with_tab_width) plus 18 configurations built in the other builder orders (with_tab_width before with_style, with_message/with_prefix before or after with_tab_width); after every operation: no TAB byte reached the terminal, the document equals the reference expansion with the current width, message()/prefix() return the expanded text; non-trivial = an expanded tab or a separator is on screen".into(),
         assumptions: vec!["terminal model 80x12; +1 s virtual time between operations".into()],
-        bounds: json!({"configurations": configs(tier).iter().map(|(c, d)| json!({"config": c.config(), "depth": d, "alphabet": 14})).collect::<Vec<_>>()}),
+        bounds: json!({"configurations": configs(tier).iter().map(|(c, d)| json!({"config": c.config(), "depth": d, "alphabet": 16})).collect::<Vec<_>>()}),
         exhaustive: true,
     }
 }
